@@ -97,7 +97,11 @@ def execute(trace, ctx):
     old_sf = Alignment.STEPS_FACTOR
     with seam, rseam:
         try:
-            manager = Manager.from_files(paths["system"], *[p["top_start"] for p in paths["species"]])
+            if trace["np_seed"] % 3 == 0:
+                from gaddlemaps.components import System
+                manager = Manager(System(paths["system"], *[p["top_start"] for p in paths["species"]]))
+            else:
+                manager = Manager.from_files(paths["system"], *[p["top_start"] for p in paths["species"]])
         except Exception as e:
             ctx.op("load", "raised")
             ctx.violate(P, "load-raised", f"Manager.from_files raised {type(e).__name__}: {e}", key=type(e).__name__)
@@ -123,7 +127,9 @@ def execute(trace, ctx):
                         mol = Molecule.from_files(p["gro_end"], p["top_end"])
                     else:
                         mol = gen.make_molecule(species[s]["end"])
-                    if op["via"] == "attribute":
+                    if op["via"] == "object" and i % 2:
+                        manager.add_end_molecules(mol)               # the plural entry point
+                    elif op["via"] == "attribute":
                         manager.molecule_correspondence[species[s]["name"]].end = mol      # as the docstring and the CLI do
                         ctx.probe("end_attached_through_attribute")
                     else:
